@@ -248,6 +248,12 @@ func runLint(runner *Runner, rslv resolver.Resolver) error {
 		}
 	}
 
+	// A syntax error in the main VCL or in an included module aborted the run (JSON mode only:
+	// the parse errors are part of the document printed above), so the verdict is failure.
+	if result.failed {
+		return ErrExit
+	}
+
 	write(red, ":fire:%d errors, ", result.Errors)
 	write(yellow, ":exclamation:%d warnings, ", result.Warnings)
 	writeln(cyan, ":speaker:%d recommendations.", result.Infos)
